@@ -48,7 +48,7 @@ _W = {}
 def _one(world, prop, master, tier, i):
     rng = core.rng_for(master, prop, i)
     trace = world.generate(prop, rng, tier)
-    out = world.execute(prop, trace)
+    out = core.safe_execute(world, prop, trace)
     return trace, out
 
 
@@ -108,7 +108,7 @@ def cmd_replay(a):
         rep = json.load(f)
     prop = rep["property"]
     world = load_world(prop)
-    out = world.execute(prop, rep["trace"])
+    out = core.safe_execute(world, prop, rep["trace"])
     want = tuple(rep["violation_class"]) if rep.get("violation_class") else None
     hit = [v for v in out.violations if want is None or core.vclass(v) == want]
     print(json.dumps({"digest": out.digest, "violations": out.violations}, indent=1)[:6000])
